@@ -3,6 +3,7 @@ import MaestroVerif.Model.Exec
 import MaestroVerif.Model.Sched
 import MaestroVerif.Model.Csv
 import MaestroVerif.Model.Lock
+import MaestroVerif.Model.Conductor
 import MaestroVerif.Model.Expand
 import MaestroVerif.Model.Launcher
 import MaestroVerif.Model.Spec
@@ -436,6 +437,39 @@ structure DrvState where
   exec : Option ExecDrv.St := none
   exp : ExpDrv.St := {}
 
+namespace CondDrv
+open Conductor Exec Gen
+
+def fmtEv : CEv → String
+  | .lockCheck b => s!"lockCheck({if b then 1 else 0})"
+  | .lockAcquire b => s!"lockAcquire({if b then 1 else 0})"
+  | .cancelStudy => "cancelStudy"
+  | .lockRemove => "lockRemove"
+  | .poll => "poll"
+  | .pickle => "pickle"
+  | .writeStatus => "writeStatus"
+  | .sleep => "sleep"
+
+def parseRet (s : String) : Option Ret :=
+  if s == "RAISED" then some .raised
+  else (StudyStatus.all.find? (·.name == s)).map Ret.status
+
+/-- `cond.trace l:a:RET ...` - the operations `monitor_study` performs in iterations whose
+environment (cancel lock file present, its file lock obtained) and poll result are given -/
+def step (toks : List String) : String :=
+  match toks with
+  | "cond.trace" :: its =>
+    let parts := its.map fun t =>
+      match t.splitOn ":" with
+      | [l, a, r] =>
+        match parseRet r with
+        | some ret => some (" ".intercalate ((iterTrace (l == "1") (a == "1") ret).map fmtEv))
+        | none => none
+      | _ => none
+    if parts.all (·.isSome) then " | ".intercalate (parts.filterMap id) else "bad-op"
+  | _ => "bad-op"
+end CondDrv
+
 def stepLine (st : DrvState) (line : String) : DrvState × String :=
   let toks := (line.trimAscii.toString.splitOn " ").filter (· ≠ "")
   match toks with
@@ -449,6 +483,7 @@ def stepLine (st : DrvState) (line : String) : DrvState × String :=
       ({ st with exec := r.1 }, r.2)
     else if t.startsWith "sched." then (st, SchedDrv.step toks)
     else if t.startsWith "csv." || t.startsWith "lock." then (st, CsvDrv.step toks)
+    else if t.startsWith "cond." then (st, CondDrv.step toks)
     else if t.startsWith "launch." then (st, LaunchDrv.step toks)
     else if t.startsWith "spec." then (st, SpecDrv.step toks)
     else if t.startsWith "exp." || t.startsWith "subst." then
